@@ -7,7 +7,9 @@ CONSTANT Scope
 VARIABLES c
 \* (the open simplex has points next to its faces: one frequency of 2e-4, 5e-4 or 1e-6)
 Pis == {<<"0.1", "0.2", "0.3", "0.4">>, <<"0.4", "0.1", "0.1", "0.4">>, <<"0.25", "0.25", "0.25", "0.25">>, <<"0.05", "0.45", "0.35", "0.15">>,
-        <<"0.0002", "0.3", "0.3", "0.3998">>, <<"0.35", "0.25", "0.3995", "0.0005">>}
+        <<"0.0002", "0.3", "0.3", "0.3998">>, <<"0.35", "0.25", "0.3995", "0.0005">>,
+        \* ties among the frequencies (three equal ones and another, two pairs): rate matrices that are partly symmetric
+        <<"0.3", "0.3", "0.3", "0.1">>, <<"0.2", "0.2", "0.2", "0.4">>, <<"0.4", "0.2", "0.2", "0.2">>, <<"0.1", "0.1", "0.4", "0.4">>}
        \cup (IF Scope = "full" THEN {<<"0.3", "0.000001", "0.399999", "0.3">>, <<"0.97", "0.01", "0.01", "0.01">>} ELSE {})
 \* (large transition / transversion ratios make the slowest eigenvalue small: P(t) is far from stationary at t = 30 .. 100)
 Ks == IF Scope = "full" THEN {"0.2", "1", "2", "3.5", "10", "20", "50"} ELSE {"0.5", "1", "4", "25"}
@@ -18,6 +20,8 @@ Prot == {"dayhoff", "jtt", "mtrev", "lg", "wag", "hivb", "ab"}
 Cases ==
   {[model |-> "jc", p |-> <<>>, pi |-> NoPi]}
   \cup {[model |-> "k2p", p |-> <<k>>, pi |-> NoPi] : k \in Ks}
+  \* a model object straight from its constructor (documented default: kappa = 1), never initialised
+  \cup {[model |-> "k2p", p |-> <<"1">>, pi |-> NoPi, fresh |-> TRUE]}
   \cup {[model |-> "f81", p |-> <<>>, pi |-> pi] : pi \in Pis}
   \cup {[model |-> "f84", p |-> <<k>>, pi |-> pi] : k \in Ks, pi \in Pis}
   \cup {[model |-> "tn93", p |-> <<k1, k2>>, pi |-> pi] : k1 \in Ks, k2 \in Ks, pi \in Pis}
